@@ -28,7 +28,7 @@ type RespSpec struct {
 	Rak  string `json:"rak"`  // Retry-After form: none | secs | date | garbage (sent, but not a valid form)
 	Rav  int    `json:"rav"`  // secs: seconds; date: seconds after the (rounded up) instant of the response
 	Code int    `json:"code"` // concrete status (0: the default of the class)
-	Var  string `json:"var"`  // variant: "", bodyerr, wrapdeadline, wrapcanceled, urldeadline, empty, trunc, via307, via308, noloc
+	Var  string `json:"var"`  // variant: "", bodyerr, wrapdeadline, wrapcanceled, urldeadline, empty, trunc, via307, via308, noloc; with rak=date on 429/503: "" (IMF-fixdate), rfc850, asctime
 }
 
 // CallSpec is one submission of a caller.
@@ -227,7 +227,15 @@ func (w *world) RoundTrip(req *http.Request) (*http.Response, error) {
 		if !d.Equal(d.Truncate(time.Second)) {
 			d = d.Truncate(time.Second).Add(time.Second)
 		}
-		hdr.Set("Retry-After", d.UTC().Format(http.TimeFormat))
+		// the three forms of HTTP-date (RFC 7231 7.1.1.1): IMF-fixdate and the two obsolete forms every recipient must accept
+		layout := http.TimeFormat
+		switch sp.Var {
+		case "rfc850":
+			layout = "Monday, 02-Jan-06 15:04:05 GMT"
+		case "asctime":
+			layout = time.ANSIC
+		}
+		hdr.Set("Retry-After", d.UTC().Format(layout))
 		pr.Rak, pr.Rav = "date", int(d.Sub(w.epoch)/time.Millisecond)
 		pr.Asked = pr.Rav
 	case "garbage":
